@@ -916,10 +916,17 @@ def op_chart_fmt(run):
             pl.gap_width = r.choice([0, 150, 500])
         if hasattr(pl, "overlap"):
             pl.overlap = r.choice([-100, 0, 100])
-        pl.vary_by_categories = r.random() < 0.5
+        try:
+            pl.vary_by_categories = r.random() < 0.5
+        except AttributeError:  # XY and bubble plots have no c:varyColors support in python-pptx (outside the properties)
+            run.acc.count("plot_attribute_unsupported_on_xy_or_bubble")
     elif k == "dlabels":
         pl = ch.plots[0]
-        pl.has_data_labels = r.random() < 0.8
+        try:
+            pl.has_data_labels = r.random() < 0.8
+        except AttributeError:  # XY / bubble / 3-D area plots: no c:dLbls support on the plot element (outside the properties)
+            run.acc.count("plot_attribute_unsupported_on_xy_or_bubble")
+            raise Rejected()
         if pl.has_data_labels:
             dl = pl.data_labels
             if r.random() < 0.7:
@@ -1139,7 +1146,7 @@ def _saturate_elements(run, elements):
         for el in queue:
             if el.getparent() is None and id(el) not in roots:
                 continue  # swapped away by an earlier step
-            for how, tag in instgen.saturate(el, r, parser_el=parse_xml, p_add=p_add, p_swap=p_swap):
+            for how, tag in instgen.saturate(el, r, parser_el=parse_xml, p_add=p_add, p_swap=p_swap, skip=SAT_SKIP_CHILDREN):
                 n_add += how == "add"
                 n_swap += how == "swap"
                 fresh += [c for c in el.findall(tag) if isinstance(c, BaseOxmlElement)]
@@ -1156,6 +1163,15 @@ def _saturate_elements(run, elements):
         run.val_baseline[part] = post
         run.hashes[part] = part_hash(part)
     return n_add, n_swap
+
+
+# children never added by saturation: a hyperlink element without r:id (the schema allows it, PowerPoint never writes it, and
+# python-pptx's readers raise KeyError on it - robustness, not one of the properties); further plots in a c:plotArea
+# (surface / ofPie / 3-D plots have no python-pptx class: replace_data and plot iteration raise AttributeError on them)
+SAT_SKIP_CHILDREN = {"{http://schemas.openxmlformats.org/drawingml/2006/main}%s" % n for n in ("hlinkClick", "hlinkMouseOver", "hlinkHover")} | {
+    "{http://schemas.openxmlformats.org/drawingml/2006/chart}%s" % n for n in (
+        "areaChart", "area3DChart", "lineChart", "line3DChart", "stockChart", "radarChart", "scatterChart", "pieChart", "pie3DChart",
+        "doughnutChart", "barChart", "bar3DChart", "ofPieChart", "surfaceChart", "surface3DChart", "bubbleChart")}
 
 
 def op_saturate(run):
